@@ -132,6 +132,12 @@ pub struct World {
     pub gid: Vec<u8>,
     pub tmpdir: Option<std::path::PathBuf>,
     pub stats: BTreeMap<String, u64>,
+    pub detached: HashMap<(String, usize), mls_rs::group::CommitSecrets>,
+    pub apps: Vec<(String, Vec<MlsMessage>)>,
+    pub app_lo: HashMap<usize, usize>,
+    pub app_leaf: HashMap<usize, u32>,
+    pub written: HashMap<String, mls_rs::group::verif::VerifState>,
+    pub joined_with: HashMap<String, Vec<u8>>,
 }
 
 pub fn make_client(
@@ -221,6 +227,12 @@ impl World {
             gid: b"verif-group".to_vec(),
             tmpdir,
             stats: BTreeMap::new(),
+            detached: HashMap::new(),
+            apps: vec![],
+            app_lo: HashMap::new(),
+            app_leaf: HashMap::new(),
+            written: HashMap::new(),
+            joined_with: HashMap::new(),
         };
         let gid = w.gid.clone();
         let p = w.parties.get_mut(creator).ok_or("no creator")?;
@@ -260,6 +272,10 @@ pub fn classify(e: &MlsError) -> String {
     let s = match e {
         InvalidEpoch => "err:epoch",
         KeyMissing(_) => "err:replay",
+        InvalidFutureGeneration(_) => "err:future",
+        EpochNotFound => "err:epoch-not-found",
+        MemberNotFound => "err:sender-gone",
+        CommitRequired => "err:commit-required",
         CantProcessMessageFromSelf => "err:own-commit",
         ProposalNotFound => "err:proposal-not-found",
         ExistingPendingCommit => "err:pending-exists",
